@@ -319,7 +319,8 @@ def build(r):
         tags = [t for t in tags if t[0] not in COUNT]
         for ct in COUNT:
             if gen.chance(r, 0.4):
-                tags.append([ct, "i", str(r.randint(0, 1000))])
+                tags.append([ct, "i", str(r.randint(0, 1000)) if not gen.fair(r, 0.12) else
+                             str(gen.choice(r, [2 ** 53 + 1, 10 ** 17 + 3, 2 ** 63 - 1, 3 * 10 ** 16 + 1, 99999999999999999]))])
         k = r.randint(2, 8)
         if gen.chance(r, 0.6):
             seq = gen.gen_sequence(r, k)
@@ -342,7 +343,7 @@ def build(r):
         tags = []
         for ct in COUNT:
             if gen.chance(r, 0.35):
-                tags.append([ct, "i", str(r.randint(0, 500))])
+                tags.append([ct, "i", str(r.randint(0, 500)) if not gen.fair(r, 0.1) else str(gen.choice(r, [2 ** 53 + 1, 10 ** 17 + 3, 2 ** 62 + 5]))])
         tags.append(["xx", "Z", "t%d" % len(links)])  # unique marker: identifies the source of a copied link
         if gen.chance(r, 0.3):
             tags.append(["ID", "Z", "id%d" % len(links)])
